@@ -360,6 +360,23 @@ pub fn run(tier: Tier) -> i32 {
                             let url0 = expected_url(base, page, start, with_routes, q, h);
                             let mut frontier: VecDeque<(String, HL, usize)> = VecDeque::new();
                             frontier.push_back((url0.clone(), start, 0));
+                            if start == HL::default() {
+                                // the default locale written as an explicit prefix is a URL of the application too
+                                // (the routes accept it): a switch away from it must replace that prefix
+                                let mut segs: Vec<String> = base_segs(base).iter().map(|s| s.to_string()).collect();
+                                segs.push(start.as_str().to_string());
+                                segs.extend(page_segments(page, start, with_routes));
+                                let mut u = format!("/{}", segs.join("/"));
+                                if !q.is_empty() {
+                                    u.push('?');
+                                    u.push_str(q);
+                                }
+                                if !h.is_empty() {
+                                    u.push('#');
+                                    u.push_str(h);
+                                }
+                                frontier.push_back((u, start, 0));
+                            }
                             let mut seen: BTreeSet<(String, u8)> = BTreeSet::new();
                             while let Some((url, cur, d)) = frontier.pop_front() {
                                 if !seen.insert((url.clone(), cur.0)) {
@@ -472,7 +489,7 @@ pub fn run(tier: Tier) -> i32 {
     rep.sample(json!({"locales": ["en", "fr"], "base": "/", "url": "/english/course", "switch": "en -> fr", "expected": "/fr/english/course"}));
     rep.sample(json!({"locales": ["en", "fr", "fr-CA"], "base": "app", "url": "/app/fr-CA/usagers/42/apropos-ca?a=1&b=fr#fr", "switch": "fr-CA -> fr", "expected": "/app/fr/utilisateurs/42/a-propos?a=1&b=fr#fr"}));
     let mut cov = serde_json::Map::new();
-    cov.insert("rule".into(), json!(format!("locale sets {sets:?} (default first; names that are prefixes of each other and of path words) x base paths {BASES:?}; (A) get_locale_from_path on every path of <= 2 (thorough 3) segments over {WORDS:?}, under the base and not, with and without trailing slash, against a whole-segment oracle; (B) explicit-state exploration: state = (URL, locale); from the URL of every page (12 route shapes with static / param / optional (also two in a row, and after a param) / splat / localized segments and the home route instantiated with 4 parameter sets, optional present or not, plus 8 paths no route knows (some are proper prefixes of routes)) in every locale, with and without query and fragment, with and without a route table, every sequence of <= {depth} locale switches, each step calling the real get_new_path with the real previous locale; invariants per transition: result == base + new prefix (none for the default) + localized segments + untouched other segments, query and fragment (so A->B->A returns the original URL), the locale read back from the new URL is the one switched to, and the real route objects match the URL before and after as the same route with the same parameters under the new prefix; with a route table the segment tables are the ones the real <I18nRoute> stored (hook stored_segments); (C) the real <I18nRoute> built natively with i18n_path! segments (home, static, localized, param, optional, splat): generate_routes() == for every locale the plain leptos_router table in that locale's words under the locale prefix, plus the default's table unprefixed; match_nested() on every path of <= 3 (4 after a locale name) segments over locale names, localized words of every locale, glued forms (locale name + more characters in the same segment), truncated and upper-cased names, with and without trailing slash: the answer must be the plain leptos_router answer for the locale whose name equals the first segment exactly, or the default locale's answer for the whole path, or no match when neither exists")));
+    cov.insert("rule".into(), json!(format!("locale sets {sets:?} (default first; names that are prefixes of each other and of path words) x base paths {BASES:?}; (A) get_locale_from_path on every path of <= 2 (thorough 3) segments over {WORDS:?}, under the base and not, with and without trailing slash, against a whole-segment oracle; (B) explicit-state exploration: state = (URL, locale); from the URL of every page (12 route shapes with static / param / optional (also two in a row, and after a param) / splat / localized segments and the home route instantiated with 4 parameter sets, optional present or not, plus 8 paths no route knows (some are proper prefixes of routes)) in every locale, with and without query and fragment, with and without a route table, (for the default locale also from the URL that carries it as an explicit prefix) every sequence of <= {depth} locale switches, each step calling the real get_new_path with the real previous locale; invariants per transition: result == base + new prefix (none for the default) + localized segments + untouched other segments, query and fragment (so A->B->A returns the original URL), the locale read back from the new URL is the one switched to, and the real route objects match the URL before and after as the same route with the same parameters under the new prefix; with a route table the segment tables are the ones the real <I18nRoute> stored (hook stored_segments); (C) the real <I18nRoute> built natively with i18n_path! segments (home, static, localized, param, optional, splat): generate_routes() == for every locale the plain leptos_router table in that locale's words under the locale prefix, plus the default's table unprefixed; match_nested() on every path of <= 3 (4 after a locale name) segments over locale names, localized words of every locale, glued forms (locale name + more characters in the same segment), truncated and upper-cased names, with and without trailing slash: the answer must be the plain leptos_router answer for the locale whose name equals the first segment exactly, or the default locale's answer for the whole path, or no match when neither exists")));
     cov.insert("exhaustive".into(), json!(true));
     cov.insert("states".into(), json!(n_states.max(1)));
     cov.insert("depth".into(), json!(depth));
